@@ -33,6 +33,9 @@ pub struct Case {
     /// filter *compares*)
     #[serde(default)]
     pub timestamps_to_return: u8,
+    /// the item is created without a filter and the filter of the case is installed with a modify request
+    #[serde(default)]
+    pub via_modify: bool,
 }
 
 const DEADBANDS: [f64; 7] = [0.0, 0.5, 1.0, 10.0, -1.0, f64::NAN, 2.5];
@@ -48,8 +51,9 @@ fn case() -> impl Strategy<Value = Case> {
         prop_oneof![3 => Just(0u8), 3 => Just(1u8), 1 => 2u8..7],
         prop::collection::vec((0u8..STEPS.len() as u8, prop_oneof![4 => Just(0u8), 1 => 1u8..4], proptest::bool::weighted(0.3)).prop_map(|(step, status, new_timestamp)| Sample { step, status, new_timestamp }), 1..25),
         prop_oneof![2 => Just(0u8), 1 => 1u8..4],
+        proptest::bool::weighted(0.3),
     )
-        .prop_map(|(trigger, deadband_type, deadband, kind, samples, timestamps_to_return)| Case { trigger, deadband_type, deadband, kind, samples, timestamps_to_return })
+        .prop_map(|(trigger, deadband_type, deadband, kind, samples, timestamps_to_return, via_modify)| Case { trigger, deadband_type, deadband, kind, samples, timestamps_to_return, via_modify })
 }
 
 thread_local! {
@@ -116,11 +120,25 @@ fn run(ctx: &Ctx, c: &Case) -> PResult {
     let request = MonitoredItemCreateRequest {
         item_to_monitor: ReadValueId { node_id: probe_id(), attribute_id: AttributeId::Value as u32, index_range: UAString::null(), data_encoding: QualifiedName::null() },
         monitoring_mode: MonitoringMode::Reporting,
-        requested_parameters: MonitoringParameters { client_handle: 7, sampling_interval: -1.0, filter, queue_size: 10, discard_oldest: true },
+        requested_parameters: MonitoringParameters { client_handle: 7, sampling_interval: -1.0, filter: if c.via_modify { ExtensionObject::null() } else { filter.clone() }, queue_size: 10, discard_oldest: true },
     };
     ctx.class(&format!("deadband_type_{}", c.deadband_type));
     // acceptance, as CreateMonitoredItems decides it: the item can be built and its filter validates
-    let created = ctx.guard(|| MonitoredItemProbe::new(&t0, 1, [TimestampsToReturn::Both, TimestampsToReturn::Source, TimestampsToReturn::Server, TimestampsToReturn::Neither][c.timestamps_to_return as usize % 4], &state, &request).and_then(|i| with_space(|a| i.validate_filter(a)).map(|_| i)))?;
+    let ttr = [TimestampsToReturn::Both, TimestampsToReturn::Source, TimestampsToReturn::Server, TimestampsToReturn::Neither][c.timestamps_to_return as usize % 4];
+    let created = ctx.guard(|| MonitoredItemProbe::new(&t0, 1, ttr, &state, &request).and_then(|i| with_space(|a| i.validate_filter(a)).map(|_| i)))?;
+    let created = if c.via_modify {
+        ctx.class("filter_installed_by_modify");
+        match created {
+            // acceptance, as ModifyMonitoredItems decides it
+            Ok(mut i) => {
+                let m = MonitoredItemModifyRequest { monitored_item_id: 1, requested_parameters: MonitoringParameters { client_handle: 7, sampling_interval: -1.0, filter: filter.clone(), queue_size: 10, discard_oldest: true } };
+                ctx.guard(|| with_space(|a| i.modify(&state, a, ttr, &m)))?.map(|_| i)
+            }
+            Err(e) => return ctx.fail("create/no-filter-refused", format!("creating an item without a filter failed with {}", e)),
+        }
+    } else {
+        created
+    };
     let mut item = match created {
         Ok(i) => i,
         Err(_) => {
@@ -272,7 +290,7 @@ fn run(ctx: &Ctx, c: &Case) -> PResult {
 pub fn def() -> PropDef {
     PropDef {
         id: "C25",
-        rule: "a data change filter (3 triggers x deadband type None / Absolute / Percent / undefined 3, 7 x deadband value 0, 0.5, 1, 2.5, 10, -1, NaN) on one real MonitoredItem created with TimestampsToReturn Both / Source / Server / Neither, fed 1..25 samples of one value kind (Int32, Double, Byte, Float, String, Boolean, UInt64) whose value moves by 0, 1/4, 1/2, 1, 3/2, 2, 5/2, 10, 11, -1 deadbands, whose status switches among four codes and whose timestamps (source and server together) change or stay; reference: reported iff first, or status differs from the last reported sample, or (value triggers) the value differs / moved by more than the absolute deadband, or (timestamp trigger) the timestamp differs; then a probe: a value change of 1e7 and a status change must be reported by every accepted filter; non-trivial = at least one suppressed sample followed by a reported one; distinct = distinct case",
+        rule: "a data change filter (3 triggers x deadband type None / Absolute / Percent / undefined 3, 7 x deadband value 0, 0.5, 1, 2.5, 10, -1, NaN) on one real MonitoredItem created with TimestampsToReturn Both / Source / Server / Neither (the filter given at creation, or installed afterwards with a modify request), fed 1..25 samples of one value kind (Int32, Double, Byte, Float, String, Boolean, UInt64) whose value moves by 0, 1/4, 1/2, 1, 3/2, 2, 5/2, 10, 11, -1 deadbands, whose status switches among four codes and whose timestamps (source and server together) change or stay; reference: reported iff first, or status differs from the last reported sample, or (value triggers) the value differs / moved by more than the absolute deadband, or (timestamp trigger) the timestamp differs; then a probe: a value change of 1e7 and a status change must be reported by every accepted filter; non-trivial = at least one suppressed sample followed by a reported one; distinct = distinct case",
         assumptions: &[
             "acceptance is what CreateMonitoredItems does: MonitoredItem::new followed by validate_filter",
             "the exact two-sided oracle is applied for deadband None and for Absolute with a non-negative finite value on numeric values; for non-numeric values under a deadband, and for any other accepted filter, only 'differs => reported' and the can-report probe are asserted",
